@@ -1281,6 +1281,7 @@ func encodeDefCoversIn(c *Ctx, r *Report, rule string, fn *ssa.Function) {
 			sources = []ssa.Value{defv}
 		}
 		// a definition kept in a plain local (no closure captures it) is a merge of its assignments
+		carried := false
 		{
 			var flat []ssa.Value
 			seenPhi := map[*ssa.Phi]bool{}
@@ -1292,6 +1293,12 @@ func encodeDefCoversIn(c *Ctx, r *Report, rule string, fn *ssa.Function) {
 						return
 					}
 					seenPhi[phi] = true
+					// a merge at a loop header carries the definition of an earlier iteration
+					for _, p := range phi.Block().Preds {
+						if phi.Block().Dominates(p) {
+							carried = true
+						}
+					}
 					for _, e := range phi.Edges {
 						expand(e)
 					}
@@ -1342,6 +1349,10 @@ func encodeDefCoversIn(c *Ctx, r *Report, rule string, fn *ssa.Function) {
 			}
 			arg := g.Common().Args[0]
 			if arg == mesg && (g.Block() == ci.Block() || g.Block().Dominates(ci.Block())) {
+				if carried {
+					ok, why = false, "the definition in force when a record is written can be the one computed for an earlier message of the list (it is carried round the loop and replaced only under a condition)"
+					break
+				}
 				mode = "per message"
 				continue // (B)
 			}
